@@ -110,55 +110,73 @@ def _worker(args):
                 vio("card-refused:%s" % name, "grid card refused with %s" % dav.effective_status(r), {"body": body})
                 continue
             stored[name] = s.req("GET", s.url("ab", name)).body
-        for (f, cls, limit) in jobs:
-            fxml = R.to_xml(f)
-            r = s.req("REPORT", s.url("ab"), dict(dav.XML_CT, Depth="1"), dav.abquery_body(fxml, [dav.P_GETETAG, dav.P_ADDRDATA], limit=limit))
-            stats["queries"] += 1
-            if r.status != 207:
-                stats["errors"] += 1
-                nonascii = any(ord(ch) > 127 for ch in fxml)
-                vio("query-fails:%s:%s" % (cls, r.status), "addressbook-query answered %s %s" % (r.status, (r.exc or "")[:160]), {"filter": fxml, "non_ascii_in_filter": nonascii})
-                continue
-            ms = dav.parse_multistatus(r.body)
-            got = {}
-            for x in ms.responses:
-                nm = urllib.parse.unquote(posixpath.basename((x.href or "").rstrip("/")))
-                got[nm] = x
-            exp = {}
-            for name, body in stored.items():
-                a = R.matches(f, body, "i;unicode-casemap")
-                b = R.matches(f, body, "i;ascii-casemap")
-                exp[name] = a if a == b else None  # the default collation decides: RFC says unicode-casemap, xandikos documents ascii-casemap
-            members = {n: x for n, x in got.items() if n in stored}
-            extra = set(got) - set(stored) - {"addressbook", ""}
-            if extra:
-                vio("unknown-href-in-result", "hrefs that are not cards of this address book: %s" % sorted(extra), {"filter": fxml})
-            if limit is not None:
-                want = [n for n, e in exp.items() if e]
-                if len(members) != min(limit, len(want)):
-                    vio("limit:%d-results-for-nresults-%d-of-%d" % (len(members), limit, len(want)), "nresults=%d, %d cards match, %d responses" % (limit, len(want), len(members)), {"filter": fxml})
-                if not set(members) <= set(want):
-                    vio("limit:non-matching-card-returned", "a card that does not match was returned under a limit", {"filter": fxml})
-                continue
-            nm_match = 0
-            for name in stored:
-                e = exp[name]
-                if e is None:
-                    stats["undecided"] += 1
+        for phase in ("", "after-delete-and-recreate:"):
+            if phase:
+                # every name is deleted and created again with ANOTHER card's content: nothing may remember the old card
+                names_ = sorted(stored)
+                for n_ in names_:
+                    s.req("DELETE", s.url("ab", n_))
+                bodies_ = [CARDS[n_] for n_ in names_]
+                stored = {}
+                for n_, b_ in zip(names_, bodies_[1:] + bodies_[:1]):
+                    r_ = s.req("PUT", s.url("ab", n_), {"Content-Type": B.CT_VCF}, b_)
+                    if dav.effective_status(r_) in (201, 204):
+                        # the truth is what was uploaded (vCards are stored byte for byte), not what GET says now
+                        stored[n_] = b_
+                        g_ = s.req("GET", s.url("ab", n_))
+                        if g_.status != 200 or g_.body != b_:
+                            vio("after-delete-and-recreate:get-serves-old-card", "after DELETE and a new PUT of %s, GET does not serve the new card" % n_, {"name": n_})
+            pj = jobs if not phase else jobs[::3]
+            for (f, cls0, limit) in pj:
+                cls = phase + cls0
+                fxml = R.to_xml(f)
+                r = s.req("REPORT", s.url("ab"), dict(dav.XML_CT, Depth="1"), dav.abquery_body(fxml, [dav.P_GETETAG, dav.P_ADDRDATA], limit=limit))
+                stats["queries"] += 1
+                if r.status != 207:
+                    stats["errors"] += 1
+                    nonascii = any(ord(ch) > 127 for ch in fxml)
+                    vio("query-fails:%s:%s" % (cls, r.status), "addressbook-query answered %s %s" % (r.status, (r.exc or "")[:160]), {"filter": fxml, "non_ascii_in_filter": nonascii})
                     continue
-                stats["pairs"] += 1
-                if e:
-                    nm_match += 1
-                isin = name in members
-                if isin != e:
-                    direction = "returned-but-does-not-match" if isin else "matches-but-not-returned"
-                    vio("%s:%s:%s" % (cls, name.replace(".vcf", ""), direction), "filter class %s, card %s: %s" % (cls, name, direction), {"filter": fxml, "card": stored[name]})
-                elif isin:
-                    d = members[name].prop_text(dav.P_ADDRDATA)
-                    if d is None or nl(d.encode("utf-8")) != nl(stored[name]):
-                        vio("address-data-differs", "address-data is not the stored card", {"filter": fxml, "card": name})
-            if 0 < nm_match < len(stored):
-                stats["nontrivial"] += 1
+                ms = dav.parse_multistatus(r.body)
+                got = {}
+                for x in ms.responses:
+                    nm = urllib.parse.unquote(posixpath.basename((x.href or "").rstrip("/")))
+                    got[nm] = x
+                exp = {}
+                for name, body in stored.items():
+                    a = R.matches(f, body, "i;unicode-casemap")
+                    b = R.matches(f, body, "i;ascii-casemap")
+                    exp[name] = a if a == b else None  # the default collation decides: RFC says unicode-casemap, xandikos documents ascii-casemap
+                members = {n: x for n, x in got.items() if n in stored}
+                extra = set(got) - set(stored) - {"addressbook", ""}
+                if extra:
+                    vio("unknown-href-in-result", "hrefs that are not cards of this address book: %s" % sorted(extra), {"filter": fxml})
+                if limit is not None:
+                    want = [n for n, e in exp.items() if e]
+                    if len(members) != min(limit, len(want)):
+                        vio("limit:%d-results-for-nresults-%d-of-%d" % (len(members), limit, len(want)), "nresults=%d, %d cards match, %d responses" % (limit, len(want), len(members)), {"filter": fxml})
+                    if not set(members) <= set(want):
+                        vio("limit:non-matching-card-returned", "a card that does not match was returned under a limit", {"filter": fxml})
+                    continue
+                nm_match = 0
+                for name in stored:
+                    e = exp[name]
+                    if e is None:
+                        stats["undecided"] += 1
+                        continue
+                    stats["pairs"] += 1
+                    if e:
+                        nm_match += 1
+                    isin = name in members
+                    if isin != e:
+                        direction = "returned-but-does-not-match" if isin else "matches-but-not-returned"
+                        vio("%s:%s:%s" % (cls, name.replace(".vcf", ""), direction), "filter class %s, card %s: %s" % (cls, name, direction), {"filter": fxml, "card": stored[name]})
+                    elif isin:
+                        d = members[name].prop_text(dav.P_ADDRDATA)
+                        if d is None or nl(d.encode("utf-8")) != nl(stored[name]):
+                            vio("address-data-differs", "address-data is not the stored card", {"filter": fxml, "card": name})
+                if 0 < nm_match < len(stored):
+                    stats["nontrivial"] += 1
         stats["requests"] = s.nreq
     finally:
         s.close()
